@@ -266,12 +266,74 @@ def shrink(inp):
             yield [rows, cols, ov, ags[:j], kills, reqs, [meta[0][:j], meta[1]]]
 
 
+# ---- histories: the SAME observer objects observe while the viewer walks around -----------------
+def impl_hist(inp):
+    rows, cols, wov, wags, steps, (ranges, seed) = inp
+    grid, agents, obs = build([rows, cols, wov, wags, [], [], [ranges, seed]])
+    viewer = agents[G.aid(0)]
+    cases, behs = [], []
+    cur = [list(w) for w in wags]
+    for n, (pos, kind) in enumerate(steps):
+        pos = tuple(pos)
+        # the viewer walks to an EMPTY cell (so that every cell dictionary keeps the order a fresh
+        # placement would give it)
+        if grid._internal[pos] == {} and tuple(viewer.position) != pos:
+            grid.remove(viewer, viewer.position)
+            assert grid.place(viewer, pos)
+            cur[0] = list(cur[0])
+            cur[0][1] = list(pos)
+        with Spy(seed * 7919 + n) as spy:
+            try:
+                o = obs[kind].get_obs(viewer)
+                if kind == 5:
+                    r = [int(o["ammo"])] if o else []
+                elif kind == 4:
+                    p = o["position"]
+                    r = [int(p[0]), int(p[1])] if p is not None else []
+                else:
+                    (v,) = o.values()
+                    r = tolist(v)
+            except TimeoutError:
+                raise
+            except Exception as e:
+                r = [-1, exc_code(e)]
+        cases.append([rows, cols, wov, [list(w) for w in cur],
+                      [[]] + [[0, kind, ranges[0], [c[0] for c in spy.choices]]]])
+        behs.append([G.snapshot(grid, agents), [r]])
+    return [cases, behs]
+
+
+def split_hist(inp, out):
+    if out[0] == -1:
+        return [], out
+    return out[0], out[1]
+
+
+def gen_hist(tier, rng):
+    quick = tier != "thorough"
+    for _ in range(250 if quick else 6000):
+        rows, cols = rng.randint(2, 7), rng.randint(2, 7)
+        cells = [(r, c) for r in range(rows) for c in range(cols)]
+        rng.shuffle(cells)
+        n = rng.randint(1, min(6, len(cells) - 1))
+        wags = [wagent(rng.randint(1, 3), cells[i], rng.choice([None, 2]),
+                       1 if (USE_BLOCKERS and i and rng.random() < 0.3) else 0) for i in range(n)]
+        free = cells[n:]
+        steps = [[list(rng.choice(free + [cells[0]])), rng.choice([0, 0, 0, 1, 2, 3, 4])]
+                 for _ in range(rng.randint(2, 8))]
+        ranges = [rng.choice([0, 1, 1, 2, 3, -1])] + [1] * (n - 1)
+        yield [rows, cols, [], wags, steps, [ranges, rng.getrandbits(30)]]
+
+
 def extra(rep, tier, rng):
     rep.extra_cov["observations"] = OBSERVATIONS["n"]
 
 
 COMPONENTS = [
+    Component(903, "observer_history", impl_hist, gen_hist, chk=904,
+              nontrivial=lambda i, o: len(i[4]) > 1, classify=lambda i, o: f"hist/steps{min(len(i[4]), 5)}"),
     Component(901, "observers", impl, gen, chk=902, nontrivial=nontrivial, classify=classify,
               shrink=shrink),
 ]
-COMPONENTS[0].split = split
+COMPONENTS[0].split = split_hist
+COMPONENTS[1].split = split
